@@ -1,172 +1,11 @@
 //@@ include contracts/inc_cmd_header.rs
 verus! {
-pub uninterp spec fn f64_is_nan(x: f64) -> bool;
-pub assume_specification[ f64::is_nan ](x: f64) -> (r: bool)
-    ensures r == f64_is_nan(x);
-pub type ZM = Map<Seq<u8>, f64>;
-pub type ZS = Map<(int, Seq<u8>), ZM>;
-pub open spec fn zmembers(z: ZS, db: int, k: Seq<u8>) -> ZM { if z.contains_key((db, k)) { z[(db, k)] } else { Map::empty() } }
-impl EngineModel {
-    /// ASSUMED CONTRACT summarising shard_zsets::zadd + the skip-list contract: a NaN score and a key of another type are
-    /// refused without any change; otherwise the member has the new score, and the result says whether it was new
-    #[verifier::external_body]
-    pub fn zadd(&mut self, db: usize, key: Vec<u8>, member: Vec<u8>, score: f64) -> (r: Result<bool>)
-        ensures
-            final(self).ttl@ == old(self).ttl@,
-            (f64_is_nan(score) || (ds_get(old(self).ds@, db as int, key@) matches Some(dv) && !(dv is ZSet))) ==> r is Err && final(self).ds@ == old(self).ds@ && final(self).z@ == old(self).z@,
-            r is Err ==> final(self).ds@ == old(self).ds@ && final(self).z@ == old(self).z@,
-            (r is Err && !f64_is_nan(score) && !(ds_get(old(self).ds@, db as int, key@) matches Some(dv) && !(dv is ZSet))) ==> mem_exhausted(*old(self)),
-            r matches Ok(b) ==> b == !zmembers(old(self).z@, db as int, key@).contains_key(member@)
-                && final(self).ds@ == old(self).ds@.insert((db as int, key@), DV::ZSet)
-                && final(self).z@ == old(self).z@.insert((db as int, key@), zmembers(old(self).z@, db as int, key@).insert(member@, score)),
-    { unimplemented!() }
-}
-/// the score text a reply carries (`format!("{}", score)` / `score.to_string()`: float formatting is outside the verifier)
-pub uninterp spec fn score_text(x: f64) -> RespFrame;
-#[verifier::external_body]
-pub fn verif_score_frame(x: f64) -> (r: RespFrame) ensures r == score_text(x), r is BulkString, { unimplemented!() }
-impl EngineModel {
-    #[verifier::external_body]
-    pub fn zscore(&mut self, db: usize, key: &[u8], member: &[u8]) -> (r: Result<Option<f64>>)
-        ensures final(self).ds@ == old(self).ds@, final(self).ttl@ == old(self).ttl@, final(self).z@ == old(self).z@,
-            (ds_get(old(self).ds@, db as int, key@) matches Some(dv) && !(dv is ZSet)) ==> r is Err,
-            !(ds_get(old(self).ds@, db as int, key@) matches Some(dv) && !(dv is ZSet)) ==>
-                r == Ok::<Option<f64>, FerrousError>(if zmembers(old(self).z@, db as int, key@).contains_key(member@) { Some(zmembers(old(self).z@, db as int, key@)[member@]) } else { None }),
-    { unimplemented!() }
-    #[verifier::external_body]
-    pub fn zcard(&mut self, db: usize, key: &[u8]) -> (r: Result<usize>)
-        ensures final(self).ds@ == old(self).ds@, final(self).ttl@ == old(self).ttl@, final(self).z@ == old(self).z@,
-            (ds_get(old(self).ds@, db as int, key@) matches Some(dv) && !(dv is ZSet)) ==> r is Err,
-            !(ds_get(old(self).ds@, db as int, key@) matches Some(dv) && !(dv is ZSet)) ==> (r matches Ok(n) && n == zmembers(old(self).z@, db as int, key@).dom().len()),
-    { unimplemented!() }
-    /// removing the last member removes the key (and its TTL)
-    #[verifier::external_body]
-    pub fn zrem(&mut self, db: usize, key: &[u8], member: &[u8]) -> (r: Result<bool>)
-        ensures
-            (ds_get(old(self).ds@, db as int, key@) matches Some(dv) && !(dv is ZSet)) ==> r is Err && final(self).ds@ == old(self).ds@ && final(self).ttl@ == old(self).ttl@ && final(self).z@ == old(self).z@,
-            !(ds_get(old(self).ds@, db as int, key@) matches Some(dv) && !(dv is ZSet)) ==> ({
-                let zm = zmembers(old(self).z@, db as int, key@);
-                &&& r == Ok::<bool, FerrousError>(zm.contains_key(member@))
-                &&& !zm.contains_key(member@) ==> final(self).ds@ == old(self).ds@ && final(self).ttl@ == old(self).ttl@ && final(self).z@ == old(self).z@
-                &&& zm.contains_key(member@) && zm.remove(member@).dom().len() > 0 ==> final(self).ds@ == old(self).ds@ && final(self).ttl@ == old(self).ttl@
-                        && final(self).z@ == old(self).z@.insert((db as int, key@), zm.remove(member@))
-                &&& zm.contains_key(member@) && zm.remove(member@).dom().len() == 0 ==> final(self).ds@ == old(self).ds@.remove((db as int, key@))
-                        && final(self).ttl@ == old(self).ttl@.remove((db as int, key@)) && final(self).z@ == old(self).z@.remove((db as int, key@))
-            }),
-    { unimplemented!() }
-}
-impl EngineModel {
-    /// ASSUMED CONTRACT summarising shard_zsets::zincrby: NaN increment, a NaN sum, and a key of another type are refused
-    /// without change; otherwise the member's score becomes the returned sum (never NaN)
-    #[verifier::external_body]
-    pub fn zincrby(&mut self, db: usize, key: Vec<u8>, member: Vec<u8>, increment: f64) -> (r: Result<f64>)
-        ensures final(self).ttl@ == old(self).ttl@,
-            r is Err ==> final(self).ds@ == old(self).ds@ && final(self).z@ == old(self).z@,
-            (f64_is_nan(increment) || (ds_get(old(self).ds@, db as int, key@) matches Some(dv) && !(dv is ZSet))) ==> r is Err,
-            r matches Ok(s) ==> !f64_is_nan(s) && final(self).ds@ == old(self).ds@.insert((db as int, key@), DV::ZSet)
-                && final(self).z@ == old(self).z@.insert((db as int, key@), zmembers(old(self).z@, db as int, key@).insert(member@, s)),
-    { unimplemented!() }
-}
-/// the least / greatest member of a non-empty sorted set in (score, member bytes) order (the order itself is C04's skip-list subject)
-pub uninterp spec fn zmin(zm: ZM) -> Seq<u8>;
-pub uninterp spec fn zmax(zm: ZM) -> Seq<u8>;
-pub broadcast axiom fn axiom_zmin_member(zm: ZM)
-    ensures zm.dom().len() > 0 ==> zm.contains_key(#[trigger] zmin(zm));
-pub broadcast axiom fn axiom_zmax_member(zm: ZM)
-    ensures zm.dom().len() > 0 ==> zm.contains_key(#[trigger] zmax(zm));
-impl EngineModel {
-    /// ASSUMED CONTRACT for the two rank ranges ZPOPMIN / ZPOPMAX ask for: (0, 0) = the least member, (-1, -1) = the greatest
-    #[verifier::external_body]
-    pub fn zrange(&mut self, db: usize, key: &[u8], start: isize, stop: isize, rev: bool) -> (r: Result<Vec<(Vec<u8>, f64)>>)
-        requires model_domain(!rev && ((start == 0 && stop == 0) || (start == -1 && stop == -1))),
-        ensures final(self).ds@ == old(self).ds@, final(self).ttl@ == old(self).ttl@, final(self).z@ == old(self).z@,
-            other_type(old(self).ds@, db as int, key@) ==> r is Err,
-            !other_type(old(self).ds@, db as int, key@) ==> r is Ok,
-            (!other_type(old(self).ds@, db as int, key@) && !rev && ((start == 0 && stop == 0) || (start == -1 && stop == -1))) ==> ({
-                let zm = zmembers(old(self).z@, db as int, key@);
-                let m = if start == 0 { zmin(zm) } else { zmax(zm) };
-                if zm.dom().len() == 0 { r->Ok_0@.len() == 0 } else { r->Ok_0@.len() == 1 && r->Ok_0@[0].0@ == m && r->Ok_0@[0].1 == zm[m] }
-            }),
-    { unimplemented!() }
-}
-/// marks a precondition that delimits what an assumed model contract describes (a call outside it makes the unit UNDECIDED)
-pub open spec fn model_domain(b: bool) -> bool { b }
-/// `v.into_iter().next()` (RXPR site): the first element, if any
-#[verifier::external_body]
-pub fn verif_first(v: Vec<(Vec<u8>, f64)>) -> (r: Option<(Vec<u8>, f64)>)
-    ensures v@.len() == 0 ==> r is None, v@.len() > 0 ==> r == Some(v@[0]),
-{ unimplemented!() }
-/// ZPOPMIN / ZPOPMAX key n: the first n extreme members, one after the other (fewer if the set runs out); each pop is a ZREM
-pub open spec fn zpop_upto(m: EngineModel, db: int, k: Seq<u8>, n: int, least: bool) -> (Seq<(Seq<u8>, f64)>, DS, Map<(int, Seq<u8>), int>, ZS)
-    decreases n
-{
-    if n <= 0 { (Seq::empty(), m.ds@, m.ttl@, m.z@) } else {
-        let p = zpop_upto(m, db, k, n - 1, least);
-        let zm = zmembers(p.3, db, k);
-        if zm.dom().len() == 0 { p } else {
-            let x = if least { zmin(zm) } else { zmax(zm) };
-            if zm.remove(x).dom().len() > 0 { (p.0.push((x, zm[x])), p.1, p.2, p.3.insert((db, k), zm.remove(x))) }
-            else { (p.0.push((x, zm[x])), p.1.remove((db, k)), p.2.remove((db, k)), p.3.remove((db, k))) }
-        }
-    }
-}
-/// once the set has run out, asking for more pops changes nothing
-pub proof fn lemma_zpop_stable(m: EngineModel, db: int, k: Seq<u8>, a: int, b: int, least: bool)
-    requires 0 <= a <= b, zmembers(zpop_upto(m, db, k, a, least).3, db, k).dom().len() == 0,
-    ensures zpop_upto(m, db, k, b, least) == zpop_upto(m, db, k, a, least),
-    decreases b - a
-{
-    if a < b { lemma_zpop_stable(m, db, k, a, b - 1, least); }
-}
-/// the reply lists the popped members with their scores, in pop order: [m1, s1, m2, s2, ..]
-pub open spec fn zpop_reply(v: Seq<RespFrame>, popped: Seq<(Seq<u8>, f64)>) -> bool {
-    v.len() == 2 * popped.len() && forall|j: int| 0 <= j < popped.len() ==> bulk_reply(#[trigger] v[2 * j]) == Some(Some(popped[j].0)) && v[2 * j + 1] == score_text(popped[j].1)
-}
-/// the key holds a value that is not a sorted set
-pub open spec fn other_type(ds: DS, db: int, k: Seq<u8>) -> bool { ds_get(ds, db, k) matches Some(dv) && !(dv is ZSet) }
-/// ZREM key m1 ..: members removed left to right; the key disappears with its last member; non-bulk arguments are skipped
-pub open spec fn zrem_upto(m: EngineModel, db: int, k: Seq<u8>, parts: Seq<RespFrame>, n: int) -> (int, DS, Map<(int, Seq<u8>), int>, ZS)
-    decreases n
-{
-    if n <= 2 { (0, m.ds@, m.ttl@, m.z@) } else {
-        let p = zrem_upto(m, db, k, parts, n - 1);
-        match arg(parts, n - 1) {
-            None => p,
-            Some(x) => {
-                let zm = zmembers(p.3, db, k);
-                if !zm.contains_key(x) { p }
-                else if zm.remove(x).dom().len() > 0 { (p.0 + 1, p.1, p.2, p.3.insert((db, k), zm.remove(x))) }
-                else { (p.0 + 1, p.1.remove((db, k)), p.2.remove((db, k)), p.3.remove((db, k))) }
-            },
-        }
-    }
-}
+//@@ include contracts/inc_zset_model.rs
 pub struct MonStub { pub g: Ghost<int> }
 pub struct Server { pub storage: EngineModel, pub monitoring: MonStub }
 pub open spec fn zrefused(r: Result<RespFrame>, o: Server, f: Server) -> bool {
     (r matches Ok(fr) && fr is Error) && f.storage.ds@ == o.storage.ds@ && f.storage.ttl@ == o.storage.ttl@ && f.storage.z@ == o.storage.z@
 }
-/// the score at position i: a bulk string that parses as a float and is a number
-pub open spec fn score_arg(parts: Seq<RespFrame>, i: int) -> Option<f64> {
-    match num_arg::<f64>(parts, i) { Some(x) => if f64_is_nan(x) { None } else { Some(x) }, None => None }
-}
-/// pair j of ZADD (score at 2+2j, member at 3+2j) is well-formed
-pub open spec fn pair_ok(parts: Seq<RespFrame>, j: int) -> bool { score_arg(parts, 2 + 2 * j) is Some && arg(parts, 2 + 2 * j + 1) is Some }
-/// every (score, member) pair of ZADD is well-formed
-pub open spec fn zadd_pairs_ok(parts: Seq<RespFrame>) -> bool {
-    forall|j: int| 0 <= j < (parts.len() - 2) / 2 ==> #[trigger] pair_ok(parts, j)
-}
-/// members after the first n pairs, and how many of them were new
-pub open spec fn zadd_upto(zm: ZM, parts: Seq<RespFrame>, n: int) -> (int, ZM)
-    decreases n
-{
-    if n <= 0 { (0, zm) } else {
-        let p = zadd_upto(zm, parts, n - 1);
-        let m = arg(parts, 2 + 2 * (n - 1) + 1)->Some_0; let s = score_arg(parts, 2 + 2 * (n - 1))->Some_0;
-        (p.0 + (if p.1.contains_key(m) { 0int } else { 1int }), p.1.insert(m, s))
-    }
-}
-
 impl Server {
 //@@ unit handle_zadd fn src/network/server.rs Server::handle_zadd
 //@@   rewrite R3
